@@ -50,7 +50,7 @@ Print Assumptions C08_reorder_dynamic.
 
 (** [bdd.reorder()]: sifting *)
 Theorem C08_sift_dynamic w a r a' :
-  AInvDT a → run_aop w (AReorder None) a = (r, a') →
+  AInvDT a → max_nodes (mgr a) = None → run_aop w (AReorder None) a = (r, a') →
   r = Ok VU ∧ ReoFrame a a' ∧ nozero (mgr a') ∧ len (mgr a') ≤ len (mgr a).
 Proof. exact (run_aop_sift_dyn w a r a'). Qed.
 Print Assumptions C08_sift_dynamic.
@@ -59,7 +59,7 @@ Print Assumptions C08_sift_dynamic.
     the levels; [roots] is the harness field of [collect_garbage(roots)]
     (empty in every autoref history) *)
 Theorem C08_order_dynamic w l a r a' :
-  AInvDT a →
+  AInvDT a → max_nodes (mgr a) = None →
   dom (list_to_map (reverse l) : gmap nat nat) = dom (vars (mgr a)) →
   (∀ v v' k, (list_to_map (reverse l) : gmap nat nat) !! v = Some k →
              (list_to_map (reverse l) : gmap nat nat) !! v' = Some k → v = v') →
